@@ -266,12 +266,15 @@ Lemma rows_kept_step sc s e s' : step sc s e = Some s' -> rows_kept s -> rows_ke
 Proof.
   unfold rows_kept. intros H K. prep e H.
   all: unfold set_session, with_holder in *; cbn [rows pending processed] in *; try assumption.
-  - (* collect *) rewrite K.
-    match goal with A : all_mem_rows _ _ = true |- _ => rewrite <- (remove_rows_perm _ _ A) at 1 end.
-    rewrite <- app_assoc. apply Permutation_app_head. apply Permutation_app_comm.
-  - (* submitter cancel *) rewrite app_assoc. apply Permutation_app_tail. exact K.
-  - rewrite K. rewrite <- !app_assoc. apply Permutation_app_head. apply Permutation_app_comm.
-  - rewrite K. rewrite <- !app_assoc. apply Permutation_app_head. apply Permutation_app_comm.
+  all: lazymatch goal with EV := ?x |- _ =>
+         lazymatch x with
+         | ECollect _ _ => rewrite K;
+           match goal with A : all_mem_rows _ _ = true |- _ => rewrite <- (remove_rows_perm _ _ A) at 1 end;
+           rewrite <- app_assoc; apply Permutation_app_head; apply Permutation_app_comm
+         | ESubCancel _ _ => rewrite app_assoc; apply Permutation_app_tail; exact K
+         | _ => rewrite K; rewrite <- !app_assoc; apply Permutation_app_head; apply Permutation_app_comm
+         end
+       end.
 Qed.
 Theorem c11_rows_kept sc tr s : run sc tr = Some s -> Permutation (rows_of tr) (pending s ++ processed s).
 Proof.
